@@ -14,7 +14,7 @@ virtual): a call with other axes is a failed obligation, not a silently accepted
 """
 from __future__ import annotations
 from pyvc import sym
-from pyvc.sym import And, Or, Not, Implies, Ite, Sym, SCx
+from pyvc.sym import And, Or, Not, Implies, Ite, Sym, SCx, SPolar
 
 
 class World:
@@ -129,7 +129,7 @@ class GT:
         return self.copy()
 
     def conj(self):
-        g = self._like(conj=not self.is_conj, scale=(self.scale.conjugate() if isinstance(self.scale, SCx) else None))
+        g = self._like(conj=not self.is_conj, scale=(self.scale.conjugate() if isinstance(self.scale, (SCx, SPolar)) else None))
         g.uid = self.uid
         g.rev = self.rev
         return g
